@@ -10,7 +10,7 @@ import random
 import re
 
 from .. import tlc
-from ..networld import World
+from ..networld import World, HangForever
 from .conn_common import HeadPeer, OKHEAD
 
 TOKEN = re.compile(rb"^[!#$%&'*+\-.^_`|~0-9A-Za-z]+$")
@@ -59,7 +59,7 @@ def server_accepts(raw):
 HOSTS = [("server.test", False, "server.test"), ("127.0.0.1", False, "127.0.0.1"), ("[::1]", True, "::1"),
          ("[2001:db8::7]", True, "2001:db8::7"), ("Upper.Test", False, "upper.test")]
 PORTS = [0, 80, 443, 8080, 1, 65535]
-PATHS = ["", "/", "/a/b", "/x.y-z_~"]
+PATHS = ["", "/", "/a/b", "/x.y-z_~", "/app;jsessionid=AB12"]
 QUERIES = ["", "x=1&y=2", "q"]
 OPT_DIMS = {
     "host": [None, "override.test:9"],
@@ -70,7 +70,8 @@ OPT_DIMS = {
     "header": [None, ["X-A: 1", "X-B: two words"], {"X-D": "1", "X-E": "e"}, {"X-N": None, "X-F": "f"}, []],
     "connection": [None, "Connection: keep-alive, Upgrade"],
     "jar": [None, "j=1"],
-    "trace": [False, True],        # debug tracing on: what is logged (and possibly masked there) must not change the wire
+    "trace": [False, True],
+    "wcap": [None, 1, 50],         # the transport accepts at most this many bytes per write        # debug tracing on: what is logged (and possibly masked there) must not change the wire
 }
 OPT_DIMS["header"].append(["Authorization: Basic dXNlcjpwYXNz", "X-Api-Key: s3cret"])
 OPT_DIMS["cookie"].append("session=abc123; token=xyz")
@@ -115,7 +116,7 @@ def run_one(idx, target, opts, draws):
     HS.CookieJar.jar.clear()
     if opts.get("jar"):
         HS.CookieJar.add("j=1; Domain=%s" % hostplain.lower())
-    kw = {k: v for k, v in opts.items() if k not in ("jar", "trace") and v is not None and v is not False}
+    kw = {k: v for k, v in opts.items() if k not in ("jar", "trace", "wcap") and v is not None and v is not False}
     import logging
     lg = logging.getLogger("websocket")
     lg_state = (lg.level, list(lg.handlers))
@@ -136,6 +137,7 @@ def _run_reps(idx, target, opts, draws, kw, url, factory, peers, events):
     scheme, (hosttxt, v6, hostplain), port, path, query = target
     for rep in range(3):
         w = World(resolver={"*": ["10.0.0.9"]}, peer_factory=factory)
+        w.write_cap = opts.get("wcap")
         n0 = len(draws)
         with w:
             ws = websocket.WebSocket()
@@ -148,7 +150,7 @@ def _run_reps(idx, target, opts, draws, kw, url, factory, peers, events):
                     ws.connect(url, socket=s, **kw)
                 else:
                     ws.connect(url, **kw)
-            except Exception as e:      # the response side is C09's business; the request was written
+            except (Exception, HangForever) as e:      # the response side is C09's business; the request was written
                 w.ev("connect_failed", what=repr(e)[:100])
         first_read = next((k for k, e in enumerate(w.log) if e["ev"] in ("trecv", "teof", "ttimeout")), len(w.log))
         sends = [bytes(e["bytes"]) for e in w.log[:first_read] if e["ev"] == "tsend"]
